@@ -12,6 +12,7 @@ DECIDING = ["contract:permute_systems", "O2:product-form", "O3:inverse-undoes", 
 RULE = ("cases = every permutation of n<=4 subsystems (random ones for n=5,6) x random independent row/column local "
         "dimensions in 1..4 x flags x dtype x memory layout x dim calling form, entries are unique ids; a signature is "
         "(monitor, kind, n, flags, rectangular?) and is non-trivial when the permutation is not the identity")
+CASE_TIMEOUT = {"quick": 240, "thorough": 3000}
 ASSUMPTIONS = [
     "reference model = NumPy C-order reshape/transpose of the (row dims + col dims) tensor; exact comparison (array_equal)",
     "2-D row vectors are outside the quantifier (library rejects them by design)",
@@ -40,6 +41,8 @@ def cases(tier):
         out.append(("sparse", r))
     for r in range(30 if tier == "quick" else 600):
         out.append(("internal", r))
+    if tier == "thorough":
+        out.append(("suite", 0))
     return out
 
 
@@ -322,3 +325,10 @@ def _run_internal(ctx, spec, rng):
     ctx.call(realignment, gen.unique_ids((a * b, c * e), "f"), [[a, b], [c, e]])
     if spec[1] % 5 == 0:
         ctx.call(symmetric_projection, 2, 3)
+
+
+def _run_suite(ctx, spec, rng):
+    """Thorough tier: the repository's own tests executed with this property's contracts attached (internal calls observed)."""
+    from ..suiterun import run_suite_under_contract
+
+    run_suite_under_contract(ctx, ['permute_systems', 'swap', 'permutation_operator'], "suite-under-contract")
